@@ -452,3 +452,29 @@ Definition ref_query_name (qs : list bytes) : bytes :=
   | q :: _ => local_host_name q
   | [] => []
   end.
+
+(* ------------------------------------------------------------------ *)
+(* RFC 6763 6.3-6.4 DNS-SD TXT records: each character string is "key=value" split at the FIRST '=';
+   keys are case-insensitive; a string without '=' is a key without value, a string with an empty key
+   is ignored, of duplicate keys the first wins.  The device model is the value of the first of the
+   keys model / ty / dvty / md that occurs (library convention, also: a record with at most two
+   strings carries no model). *)
+Fixpoint txt_split (s : bytes) (key : bytes) : bytes * option bytes :=   (* key accumulated reversed *)
+  match s with
+  | [] => (rev key, None)
+  | c :: r => if c =? 61 then (rev key, Some r) else txt_split r (c :: key)
+  end.
+Definition ascii_lower (c : N) : N := if (65 <=? c) && (c <=? 90) then c + 32 else c.
+Definition model_keys : list bytes :=
+  [[109; 111; 100; 101; 108]; [116; 121]; [100; 118; 116; 121]; [109; 100]].   (* model ty dvty md *)
+Definition txt_model_of (s : bytes) : option bytes :=
+  match txt_split s [] with
+  | (k, Some v) => if existsb (lab_eqb (map ascii_lower k)) model_keys then Some v else None
+  | (_, None) => None
+  end.
+Definition ref_txt_model (txt : list bytes) : bytes :=
+  if Nat.leb (length txt) 2 then []
+  else match flat_map (fun s => match txt_model_of s with Some v => [v] | None => [] end) txt with
+       | v :: _ => v
+       | [] => []
+       end.
